@@ -169,7 +169,7 @@ theorem lemma_und_writeHeader0 (sn : Sniff) (w : CW) (p : Base) (c : Nat) (h : U
 
 theorem lemma_start_buffer_irrel (sn : Sniff) (w : CW) (b' pending : Bytes) (c : Bool) :
     ({ w with buffer := b' } : CW).start sn pending c = w.start sn pending c := by
-  unfold CW.start CW.restoreHeader CW.initCompression
+  unfold CW.start CW.restoreHeader CW.restoreTrailers CW.initCompression
   cases hcm : w.committed <;> simp [hcm] <;> split <;> simp
 
 theorem lemma_informational_of_noBody (s : Nat) (h : noBody s = false) : informational s = false := by
@@ -192,16 +192,16 @@ theorem lemma_start_und_pass (sn : Sniff) (w : CW) (p : Base) (c : Bool) (h : Un
     · simp [hc]
     · simp [hc]
   cases w with
-  | mk base thr enc exclCT buffer committed headersSent status decided compress hasWriter evs closed restored =>
+  | mk base thr enc exclCT buffer committed trailers headersSent status decided compress hasWriter evs closed restored =>
     simp only [CW.mk.injEq, true_and, and_true] at nf
-    obtain ⟨rfl, rfl, rfl, rfl, rfl, rfl, rfl, rfl⟩ := nf
+    obtain ⟨rfl, rfl, rfl, rfl, rfl, rfl, rfl, rfl, rfl⟩ := nf
     simp only at h1 hps hnb hv hcm hbody hsent
     subst hcm
     cases p with
     | mk live wrote pstatus snap sent ctype pend body panicked =>
       simp only at hpw hps hbody hsent pp hcomp hinf
       subst hpw; subst pp; subst hbody; subst hps
-      unfold CW.start CW.restoreHeader
+      unfold CW.start CW.restoreHeader CW.restoreTrailers
       simp only [hcomp]
       by_cases hbe : body = []
       · subst hbe
@@ -252,16 +252,16 @@ theorem lemma_start_und_cmp (sn : Sniff) (w : CW) (p : Base) (h : UndRel sn w p)
   clear st1
   have hinf := lemma_informational_of_noBody _ hnb
   cases w with
-  | mk base thr enc exclCT buffer committed headersSent status decided compress hasWriter evs closed restored =>
+  | mk base thr enc exclCT buffer committed trailers headersSent status decided compress hasWriter evs closed restored =>
     simp only [CW.mk.injEq, true_and] at nf
-    obtain ⟨rfl, rfl, rfl, rfl, rfl, rfl, rfl, rfl⟩ := nf
+    obtain ⟨rfl, rfl, rfl, rfl, rfl, rfl, rfl, rfl, rfl⟩ := nf
     simp only at h1 hps hnb hv hcm hbody hsent henc
     subst hcm
     cases p with
     | mk live wrote pstatus snap sent ctype pend body panicked =>
       simp only at hpw hps hbody hsent pp hinf hce
       subst hpw; subst pp; subst hbody; subst hps
-      unfold CW.start CW.restoreHeader CW.initCompression
+      unfold CW.start CW.restoreHeader CW.restoreTrailers CW.initCompression
       simp only [hce]
       let T : Option Bytes := if !hhas snap kCT && !body.isEmpty then some (sn (body.take 512)) else none
       have hT : ctypeFor sn pstatus snap body = T := by
@@ -312,9 +312,9 @@ theorem lemma_und_hold (sn : Sniff) (w : CW) (p : Base) (d : Bytes) (h : UndRel 
   obtain ⟨hpw, hps, hnb, hv, hcm, hbody, hsent⟩ := st1 h1
   clear st1
   cases w with
-  | mk base thr enc exclCT buffer committed headersSent status decided compress hasWriter evs closed restored =>
+  | mk base thr enc exclCT buffer committed trailers headersSent status decided compress hasWriter evs closed restored =>
     simp only [CW.mk.injEq, true_and] at nf
-    obtain ⟨rfl, rfl, rfl, rfl, rfl, rfl, rfl, rfl⟩ := nf
+    obtain ⟨rfl, rfl, rfl, rfl, rfl, rfl, rfl, rfl, rfl⟩ := nf
     simp only at h1 hps hnb hv hcm hbody hsent
     subst hcm
     cases p with
